@@ -542,7 +542,7 @@ Proof.
       right. right. exists w'. auto.
 Qed.
 
-Lemma contains_mono st k k2 v : ahas str_eqb st k = true -> ahas str_eqb (aset str_eqb st k2 v) k = true.
+Lemma contains_mono (st : list (str * str)) k k2 v : ahas str_eqb st k = true -> ahas str_eqb (aset str_eqb st k2 v) k = true.
 Proof.
   intros H. apply (ahas_in (V:=str) str_eqb str_eqb_eq). apply (in_keys_aset (V:=str) str_eqb str_eqb_eq). left.
   apply (ahas_in (V:=str) str_eqb str_eqb_eq). exact H.
@@ -629,7 +629,7 @@ Lemma get_good s T q :
   Wf s T -> plainq q = true ->
   Good (finish T (getitem_q s q)) (fun h => d_get (abs_sys (s, T)) (norm (st_dns s) q) h).
 Proof.
-  intros W Hq. unfold d_get. rewrite abs_sys_eq. cbn [d_dict d_views]. rewrite (contains_abs s T q W Hq).
+  intros W Hq. unfold Good, d_get. rewrite abs_sys_eq. cbn [d_dict d_views]. rewrite (contains_abs s T q W Hq).
   destruct (contains_q s q) eqn:C.
   2:{ unfold getitem_q. rewrite C. cbn. split; [exact W|]. eexists. split; [reflexivity|apply out_agrees_refl]. }
   destruct (getitem_cases s q C) as [[o [Hc ->]]|[Hc ->]].
@@ -664,8 +664,283 @@ Proof.
     + assert (nth_error (absv s T) (length T) = None) as Hnone.
       { apply nth_error_None. rewrite absv_length. lia. }
       rewrite Hnone, absv_length, Nat.eqb_refl. eexists. split; [|apply out_agrees_refl].
-      rewrite abs_sys_eq. cbn [st_store st_dns st_node_ns with_cache with_objs].
-      rewrite absv_app. f_equal. f_equal.
-      * symmetry. apply (absv_grow s T _ _ [Live q] W). reflexivity.
-      * unfold obj_at. cbn. rewrite (nth_error_nth _ _ _ Hl). reflexivity.
+      set (s' := with_cache (with_objs s (st_objs s ++ [Live q])) (aset qname_eqb (st_cache s) q n)).
+      assert (absv s' T = absv s T) as Ha by (apply (absv_grow s T _ _ [Live q] W); reflexivity).
+      assert (obj_at s' n = Live q) as Ho by (apply obj_at_nth; exact Hl).
+      rewrite abs_sys_eq, absv_app, Ha, Ho. reflexivity.
+Qed.
+
+Lemma absv_same s s' T e :
+  Wf s T -> st_dns s' = st_dns s -> st_objs s' = st_objs s ++ e -> absv s' T = absv s T.
+Proof.
+  intros W Hd Ho. apply absv_ext; [exact Hd|]. intros o Hin. unfold obj_at. rewrite Ho.
+  apply app_nth1. apply view_ok_lt. apply (wf_views s T W). exact Hin.
+Qed.
+
+Lemma nth_set_nth {A} (l : list A) o o' x d :
+  o < length l -> nth o' (set_nth l o x) d = if Nat.eqb o' o then x else nth o' l d.
+Proof.
+  revert o o'. induction l as [|a r IH]; intros [|o] [|o'] H; cbn in *; try lia; try reflexivity.
+  apply IH. lia.
+Qed.
+
+Lemma absv_set_nth s s' T i o x :
+  NoDup T -> nth_error T i = Some o -> o < length (st_objs s) ->
+  st_dns s' = st_dns s -> st_objs s' = set_nth (st_objs s) o x ->
+  absv s' T = set_nth (absv s T) i (abs_obj (st_dns s) x).
+Proof.
+  intros ND Hn Hlt Hd Ho. unfold absv. rewrite Hd.
+  assert (forall o', obj_at s' o' = if Nat.eqb o' o then x else obj_at s o') as Hat.
+  { intros o'. unfold obj_at. rewrite Ho. apply nth_set_nth. exact Hlt. }
+  clear Ho Hd. revert i Hn. induction T as [|t r IH]; intros [|i] Hn; cbn in *; try discriminate.
+  - inversion Hn. subst t. rewrite Hat, Nat.eqb_refl. f_equal.
+    inversion ND as [|? ? Ht ND']. subst. apply map_ext_in. intros o' Ho'. rewrite Hat.
+    destruct (Nat.eqb o' o) eqn:E; [|reflexivity]. apply Nat.eqb_eq in E. subst. contradiction.
+  - inversion ND as [|? ? Ht ND']. subst. rewrite Hat.
+    destruct (Nat.eqb t o) eqn:E.
+    + apply Nat.eqb_eq in E. subst. exfalso. apply Ht. apply nth_error_In in Hn. exact Hn.
+    + f_equal. apply IH; assumption.
+Qed.
+
+Lemma set_good s T q v :
+  Wf s T -> plainq q = true ->
+  Good ((setitem_q s q v, T), RNone)
+       (fun _ => (with_dict (abs_sys (s, T)) (dset (d_dict (abs_sys (s, T))) (norm (st_dns s) q) v), RNone)).
+Proof.
+  intros W Hq. unfold Good. cbn [fst snd].
+  pose proof (wf_store_set s T q v W Hq) as W1.
+  pose proof (wf_new_cached _ T q W1) as W2. cbn [st_objs st_cache with_store] in W2.
+  split; [exact W2|]. eexists. split; [|apply out_agrees_refl].
+  rewrite !abs_sys_eq. unfold with_dict. cbn [d_dict d_views d_dns d_node_ns]. unfold setitem_q. cbn.
+  f_equal. f_equal.
+  - symmetry. apply abs_set; [apply (wf_keys s T W)|exact Hq].
+  - symmetry. apply (absv_same s _ T [Live q] W); reflexivity.
+Qed.
+
+Lemma skey_ok_decon dns k : skey_ok dns k = true -> decon_ok k = true.
+Proof.
+  unfold skey_ok, skey_shape. rewrite decon_ok_spec. destruct (spec_clark k); [reflexivity|discriminate].
+Qed.
+
+Lemma iter_good s T :
+  Wf s T -> iter_keys s = RKeys (map fst (abs_store (st_dns s) (st_store s))).
+Proof.
+  intros W. unfold iter_keys. rewrite abs_store_keys.
+  assert (forallb decon_ok (map fst (st_store s)) = true) as H.
+  { apply forallb_forall. intros k Hk. pose proof (wf_keys s T W) as Hf. rewrite Forall_forall in Hf.
+    apply (skey_ok_decon (st_dns s)). exact (Hf k Hk). }
+  rewrite H. reflexivity.
+Qed.
+
+Lemma view_cases s T o :
+  Wf s T -> In o T ->
+  (exists q v, nth_error (st_objs s) o = Some (Live q) /\ plainq q = true /\ contains_q s q = true /\
+               aget str_eqb (st_store s) (skey s q) = Some v) \/
+  (exists v q, nth_error (st_objs s) o = Some (Dead v q)).
+Proof.
+  intros W Hin. pose proof (wf_views s T W o Hin) as Hv. unfold view_ok in Hv.
+  destruct (nth_error (st_objs s) o) as [[q|v q]|] eqn:E; [| |discriminate].
+  - left. apply andb_true_iff in Hv. destruct Hv as [Hp Hc]. unfold contains_q, ahas in Hc.
+    destruct (aget str_eqb (st_store s) (skey s q)) as [v|] eqn:Ev; [|discriminate].
+    exists q, v. unfold contains_q, ahas. rewrite Ev. auto.
+  - right. exists v, q. reflexivity.
+Qed.
+
+Lemma value_good s T i o :
+  Wf s T -> nth_error T i = Some o ->
+  Good ((s, T), obj_value s o) (fun h => dict_step (abs_sys (s, T)) (OValue i) h).
+Proof.
+  intros W Hn. unfold Good. cbn [fst snd dict_step]. split; [exact W|].
+  rewrite abs_sys_eq. cbn [d_views d_dict]. rewrite (absv_nth s T i o Hn).
+  destruct (view_cases s T o W (nth_error_In _ _ Hn)) as [[q [v [Hl [Hp [Hc Hv]]]]]|[v [q Hd]]].
+  - rewrite (obj_at_nth s o _ Hl). cbn [abs_obj]. unfold obj_value. rewrite Hl, Hv.
+    rewrite (abs_get (st_dns s) (st_store s) q (wf_keys s T W) Hp). fold (skey s q). rewrite Hv.
+    eexists. split; [reflexivity|apply out_agrees_refl].
+  - rewrite (obj_at_nth s o _ Hd). cbn [abs_obj]. unfold obj_value. rewrite Hd.
+    eexists. split; [reflexivity|apply out_agrees_refl].
+Qed.
+
+Lemma wf_set_dead s T o v q0 w :
+  Wf s T -> nth_error (st_objs s) o = Some (Dead v q0) ->
+  Wf (with_objs s (set_nth (st_objs s) o w)) T -> True.
+Proof. trivial. Qed.
+
+Lemma setvalue_good s T i o v :
+  Wf s T -> nth_error T i = Some o ->
+  Good ((fst (obj_set_value s o v), T), snd (obj_set_value s o v))
+       (fun h => dict_step (abs_sys (s, T)) (OSetValue i v) h).
+Proof.
+  intros W Hn. unfold Good. cbn [fst snd dict_step].
+  rewrite abs_sys_eq. cbn [d_views d_dict]. rewrite (absv_nth s T i o Hn).
+  pose proof (nth_error_In _ _ Hn) as Hin.
+  destruct (view_cases s T o W Hin) as [[q [v0 [Hl [Hp [Hc Hv]]]]]|[v0 [q Hd]]].
+  - rewrite (obj_at_nth s o _ Hl). cbn [abs_obj]. unfold obj_set_value. rewrite Hl. cbn [fst snd].
+    split; [apply wf_store_set; assumption|]. eexists. split; [|apply out_agrees_refl].
+    rewrite abs_sys_eq. unfold with_dict. cbn. f_equal. f_equal.
+    symmetry. apply abs_set; [apply (wf_keys s T W)|exact Hp].
+  - rewrite (obj_at_nth s o _ Hd). cbn [abs_obj]. unfold obj_set_value. rewrite Hd. cbn [fst snd].
+    assert (o < length (st_objs s)) as Hlt by (apply nth_error_Some; rewrite Hd; discriminate).
+    split.
+    + destruct W as [H1 H2 H3 H4 H5 H6 H7 H8]. constructor; cbn; try assumption.
+      * intros q' c Hc. specialize (H6 q' c Hc). rewrite nth_error_set_nth_other; [exact H6|].
+        intros ->. rewrite Hd in H6. discriminate.
+      * intros o' Ho'. specialize (H8 o' Ho'). unfold view_ok in *. cbn.
+        destruct (Nat.eq_dec o o') as [<-|Hne].
+        -- rewrite nth_error_set_nth_same by exact Hlt. reflexivity.
+        -- rewrite nth_error_set_nth_other by exact Hne. exact H8.
+    + eexists. split; [|apply out_agrees_refl].
+      rewrite abs_sys_eq.
+      rewrite (absv_set_nth s (with_objs s (set_nth (st_objs s) o (Dead v q))) T i o (Dead v q)
+                 (wf_T s T W) Hn Hlt eq_refl eq_refl).
+      reflexivity.
+Qed.
+
+(* ------------------------------------------------------------------------------------------ *)
+(* removing an entry                                                                            *)
+Definition NoStale (s : astate) (T : list oid) (q : qname) (but : option oid) : Prop :=
+  forall o q', In o T -> nth_error (st_objs s) o = Some (Live q') -> norm (st_dns s) q' = norm (st_dns s) q ->
+               but = Some o \/ aget qname_eqb (st_cache s) q = Some o.
+
+Lemma no_stale_prop s T q but : no_stale s T q but = true -> NoStale s T q but.
+Proof.
+  unfold no_stale, NoStale. rewrite forallb_forall. intros H o q' Hin Hl Hn. specialize (H o Hin).
+  rewrite Hl in H. unfold same_entry in H. rewrite Hn, qname_eqb_refl in H.
+  apply orb_true_iff in H. destruct H as [H|H].
+  - left. destruct but as [b|]; [|discriminate]. apply Nat.eqb_eq in H. subst. reflexivity.
+  - right. destruct (aget qname_eqb (st_cache s) q) as [c|]; [|discriminate]. apply Nat.eqb_eq in H. subst. reflexivity.
+Qed.
+
+Definition kill_state (s1 : astate) (q : qname) (c : oid) (v : str) (q0 : qname) : astate :=
+  mkA (adel str_eqb (st_store s1) (skey s1 q)) (st_dns s1) (st_node_ns s1)
+      (adel qname_eqb (st_cache s1) q) (set_nth (st_objs s1) c (Dead v q0)).
+
+Lemma getitem_wf s T q :
+  Wf s T -> plainq q = true -> contains_q s q = true ->
+  exists s1 c, getitem_q s q = (s1, RObj c) /\ Wf s1 T /\
+    st_store s1 = st_store s /\ st_dns s1 = st_dns s /\ st_node_ns s1 = st_node_ns s /\
+    (exists e, st_objs s1 = st_objs s ++ e) /\
+    aget qname_eqb (st_cache s1) q = Some c /\
+    (forall o, aget qname_eqb (st_cache s) q = Some o -> s1 = s /\ c = o) /\
+    (aget qname_eqb (st_cache s) q = None -> ~ In c T).
+Proof.
+  intros W Hq C. destruct (getitem_cases s q C) as [[o [Hc Hg]]|[Hc Hg]].
+  - exists s, o. split; [exact Hg|]. split; [exact W|]. split; [reflexivity|]. split; [reflexivity|].
+    split; [reflexivity|]. split; [exists []; rewrite app_nil_r; reflexivity|]. split; [exact Hc|]. split.
+    + intros o' H. rewrite Hc in H. inversion H. auto.
+    + intros H. rewrite Hc in H. discriminate.
+  - eexists. eexists. split; [exact Hg|]. split; [apply wf_new_cached; exact W|]. cbn.
+    split; [reflexivity|]. split; [reflexivity|]. split; [reflexivity|]. split; [exists [Live q]; reflexivity|].
+    split; [apply (aget_aset_same qname_eqb qname_eqb_eq)|]. split.
+    + intros o' H. rewrite Hc in H. discriminate.
+    + intros _ Hin. pose proof (view_ok_lt s _ (wf_views s T W _ Hin)). lia.
+Qed.
+
+Lemma skey_same s s1 q : st_dns s1 = st_dns s -> skey s1 q = skey s q.
+Proof. intros H. unfold skey. rewrite H. reflexivity. Qed.
+
+Lemma contains_same s s1 q : st_dns s1 = st_dns s -> st_store s1 = st_store s -> contains_q s1 q = contains_q s q.
+Proof. intros H1 H2. unfold contains_q. rewrite (skey_same s s1 q H1), H2. reflexivity. Qed.
+
+Lemma delitem_eq s T q :
+  Wf s T -> plainq q = true -> contains_q s q = true ->
+  exists s1 c v, getitem_q s q = (s1, RObj c) /\ Wf s1 T /\
+    st_store s1 = st_store s /\ st_dns s1 = st_dns s /\ st_node_ns s1 = st_node_ns s /\
+    (exists e, st_objs s1 = st_objs s ++ e) /\
+    aget qname_eqb (st_cache s1) q = Some c /\
+    (forall o, aget qname_eqb (st_cache s) q = Some o -> s1 = s /\ c = o) /\
+    (aget qname_eqb (st_cache s) q = None -> ~ In c T) /\
+    aget str_eqb (st_store s) (skey s q) = Some v /\
+    delitem_q s q = (kill_state s1 q c v q, RNone).
+Proof.
+  intros W Hq C.
+  destruct (getitem_wf s T q W Hq C) as [s1 [c [Hg [W1 [Hs [Hd [Hn [He [Hc [Hu Hf]]]]]]]]]].
+  pose proof C as C'. unfold contains_q, ahas in C'.
+  destruct (aget str_eqb (st_store s) (skey s q)) as [v|] eqn:Ev; [|discriminate].
+  exists s1, c, v. do 9 (split; [assumption|]). split; [reflexivity|].
+  pose proof (cache_live s1 T q c W1 Hc) as Hl.
+  unfold delitem_q. rewrite C, Hg. unfold obj_value. rewrite Hl. unfold kill_state.
+  rewrite (skey_same s s1 q Hd), Hs, Ev. reflexivity.
+Qed.
+
+Lemma in_adel_neq {V} (l : list (qname * V)) k x :
+  NoDup (map fst l) -> In x (adel qname_eqb l k) -> In x l /\ fst x <> k.
+Proof.
+  intros ND H. split; [exact (in_adel qname_eqb l k x H)|].
+  apply (in_map fst) in H. apply (in_keys_adel_iff qname_eqb qname_eqb_eq l k (fst x) ND) in H. apply H.
+Qed.
+
+Lemma kill_views_map K v vs :
+  kill_views K v vs = map (fun w => match w with VLive k' => if qname_eqb k' K then VDead v else w | VDead _ => w end) vs.
+Proof. reflexivity. Qed.
+
+Lemma kill_good s1 T q c v (but : option oid) :
+  Wf s1 T -> plainq q = true ->
+  aget qname_eqb (st_cache s1) q = Some c -> aget str_eqb (st_store s1) (skey s1 q) = Some v ->
+  (forall o q', In o T -> nth_error (st_objs s1) o = Some (Live q') ->
+                norm (st_dns s1) q' = norm (st_dns s1) q -> o = c) ->
+  let s' := kill_state s1 q c v q in
+  Wf s' T /\
+  abs_store (st_dns s') (st_store s') = ddel (abs_store (st_dns s1) (st_store s1)) (norm (st_dns s1) q) /\
+  absv s' T = kill_views (norm (st_dns s1) q) v (absv s1 T).
+Proof.
+  intros W Hq Hc Hv Hst s'. subst s'. unfold kill_state.
+  pose proof (cache_live s1 T q c W Hc) as Hl.
+  assert (c < length (st_objs s1)) as Hlt by (apply nth_error_Some; rewrite Hl; discriminate).
+  split; [|split].
+  - destruct W as [H1 H2 H3 H4 H5 H6 H7 H8]. constructor; cbn; try assumption.
+    + apply keys_ok_del. exact H3.
+    + apply (nodup_adel str_eqb). exact H4.
+    + apply (nodup_adel qname_eqb). exact H5.
+    + intros q' o Hin. apply (in_adel_neq _ _ _ H5) in Hin. destruct Hin as [Hin Hne]. cbn in Hne.
+      specialize (H6 q' o Hin). rewrite nth_error_set_nth_other; [exact H6|].
+      intros <-. rewrite Hl in H6. inversion H6. subst. apply Hne. reflexivity.
+    + intros o Ho. pose proof (H8 o Ho) as Hvo. unfold view_ok in *. cbn.
+      destruct (Nat.eq_dec c o) as [<-|Hne].
+      * rewrite nth_error_set_nth_same by exact Hlt. reflexivity.
+      * rewrite nth_error_set_nth_other by exact Hne.
+        destruct (nth_error (st_objs s1) o) as [[q'|]|] eqn:Eo; try assumption.
+        apply andb_true_iff in Hvo. destruct Hvo as [Hp Hco]. rewrite Hp. cbn [andb].
+        unfold contains_q, skey, ahas in *. cbn [st_store st_dns].
+        rewrite (aget_adel_other str_eqb str_eqb_eq); [exact Hco|].
+        intros Hk. apply (etree_key_norm_iff (st_dns s1) q q' Hq Hp) in Hk.
+        apply Hne. symmetry. apply (Hst o q' Ho Eo). symmetry. exact Hk.
+  - cbn. unfold skey. apply abs_del; [apply (wf_keys s1 T W)|exact Hq].
+  - rewrite kill_views_map. unfold absv. rewrite map_map. cbn [st_dns].
+    apply map_ext_in. intros o Ho. unfold obj_at. cbn [st_objs].
+    rewrite (nth_set_nth _ c o _ _ Hlt).
+    destruct (Nat.eqb o c) eqn:E.
+    + apply Nat.eqb_eq in E. subst o. rewrite (nth_error_nth _ _ _ Hl). cbn [abs_obj].
+      rewrite qname_eqb_refl. reflexivity.
+    + pose proof (wf_views s1 T W o Ho) as Hvo. unfold view_ok in Hvo.
+      destruct (nth_error (st_objs s1) o) as [[q'|v' q']|] eqn:Eo; [| |discriminate].
+      * rewrite (nth_error_nth _ _ _ Eo). cbn [abs_obj].
+        destruct (qname_eqb (norm (st_dns s1) q') (norm (st_dns s1) q)) eqn:En; [|reflexivity].
+        apply qname_eqb_eq in En. rewrite (Hst o q' Ho Eo En) in E. rewrite Nat.eqb_refl in E. discriminate.
+      * rewrite (nth_error_nth _ _ _ Eo). reflexivity.
+Qed.
+
+Lemma del_good s T q :
+  Wf s T -> plainq q = true -> (contains_q s q = false \/ NoStale s T q None) ->
+  Good ((fst (delitem_q s q), T), snd (delitem_q s q)) (fun _ => d_del (abs_sys (s, T)) (norm (st_dns s) q)).
+Proof.
+  intros W Hq Hsafe. unfold Good, d_del. cbn [fst snd]. rewrite abs_sys_eq. cbn [d_dict d_views d_dns d_node_ns].
+  rewrite (abs_get (st_dns s) (st_store s) q (wf_keys s T W) Hq). fold (skey s q).
+  destruct (contains_q s q) eqn:C.
+  2:{ unfold delitem_q. rewrite C. cbn [fst snd]. split; [exact W|].
+      unfold contains_q, ahas in C. destruct (aget str_eqb (st_store s) (skey s q)); [discriminate|].
+      eexists. split; [reflexivity|apply out_agrees_refl]. }
+  destruct Hsafe as [Hsafe|Hsafe]; [discriminate|].
+  destruct (delitem_eq s T q W Hq C) as [s1 [c [v [Hg [W1 [Hs [Hd [Hn [[e He] [Hc [Hu [Hf [Hv ->]]]]]]]]]]]]].
+  cbn [fst snd]. rewrite Hv.
+  assert (forall o q', In o T -> nth_error (st_objs s1) o = Some (Live q') ->
+                       norm (st_dns s1) q' = norm (st_dns s1) q -> o = c) as Hst.
+  { intros o q' Ho Hl Hnm. rewrite Hd in Hnm.
+    assert (nth_error (st_objs s) o = Some (Live q')) as Hl0.
+    { rewrite He in Hl. rewrite nth_error_app_l in Hl; [exact Hl|]. apply view_ok_lt. apply (wf_views s T W). exact Ho. }
+    destruct (Hsafe o q' Ho Hl0 Hnm) as [H|H]; [discriminate|]. destruct (Hu o H) as [_ ->]. reflexivity. }
+  assert (aget str_eqb (st_store s1) (skey s1 q) = Some v) as Hv1 by (rewrite (skey_same s s1 q Hd), Hs; exact Hv).
+  destruct (kill_good s1 T q c v None W1 Hq Hc Hv1 Hst) as [W2 [Ha Hb]].
+  split; [exact W2|]. eexists. split; [|apply out_agrees_refl].
+  rewrite abs_sys_eq, Ha, Hb. cbn [kill_state st_dns st_node_ns]. rewrite Hs, Hd, Hn.
+  rewrite (absv_same s s1 T e W Hd He). reflexivity.
 Qed.
